@@ -206,7 +206,9 @@ func (c *Chain) header() cmtproto.Header {
 func (c *Chain) ResetCtx() { c.newCtx() }
 
 func (c *Chain) newCtx() {
-	c.Ctx = c.App.BaseApp.NewUncachedContext(false, c.header())
+	// messages executed between blocks run as they do inside FinalizeBlock: code that behaves differently in that
+	// execution mode (process-local caches filled only while finalizing) takes its block-execution path
+	c.Ctx = c.App.BaseApp.NewUncachedContext(false, c.header()).WithExecMode(sdk.ExecModeFinalize)
 }
 
 func (c *Chain) buildGenesis(o Options) app.GenesisState {
